@@ -142,7 +142,7 @@ func isGenProto(fn *ssa.Function) bool {
 func (p *Program) scopeFuncKeys() []string {
 	var ks []string
 	for k, fn := range p.Funcs {
-		if inScope(fn) && fn.Blocks != nil {
+		if inScope(fn) && fn.Blocks != nil && fn.Name() != "init" && !strings.HasPrefix(fn.Name(), "init#") {
 			ks = append(ks, k)
 		}
 	}
